@@ -151,6 +151,10 @@ def St.marginHeight (s : St) : Rat := s.borderHeight + lenOr0 s.mt + lenOr0 s.mb
 /-- hypothetical outer main size, the quantity added up in steps 4, 5 and 9.7.1. -/
 def St.outerHyp (s : St) : Rat := s.hyp + s.extra
 
+/-- Validator `flex_grow_shrink` (css/validation/properties.py, since repair c151619): a negative `flex-grow` /
+`flex-shrink` is invalid, the declaration is ignored and the property keeps its initial value (0 / 1). -/
+def computedFactor (written initial : Rat) : Rat := if written < 0 then initial else written
+
 /-! ### order -/
 
 /-- Stable insertion of an element that came *before* `ys` in document order: before the first
